@@ -581,6 +581,10 @@ func gen(r *h.Rand, tier string, emit func([]string)) {
 				case x < 85:
 					mn, mx := genRange(r, tmax)
 					o = "delrange " + genKeys(r, nkeys) + " " + mn + " " + mx
+				case t != 0:
+					// Snapshot / ClearSnapshot have one caller in the engine (WriteSnapshot, one
+					// cycle at a time): only thread 0 issues them; the other threads write instead
+					o = genBatch(r, nkeys, 0, tmax, 3)
 				case x < 93:
 					o = "snapshot"
 				default:
